@@ -21,15 +21,19 @@ IDSTART = re.compile(r'[A-Za-z_$\u0080-\U0010ffff]')
 IDCONT = re.compile(r'[A-Za-z0-9_$\u0080-\U0010ffff]')
 
 
+GCC_SPLICE = False
+
+
 class LexError(Exception):
     pass
 
 
-def lex(text, lang='C'):
+def lex(text, lang='C', gcc_splice=None):
     if isinstance(text, bytes):
         text = text.decode('utf-8', 'surrogateescape')
     """text: str (decoded). returns list of (kind, text, line, start_offset)."""
     java = lang == 'JAVA'
+    gcc = GCC_SPLICE if gcc_splice is None else gcc_splice
     cpp = lang in ('CPP', 'OC+', 'C', 'OC')  # raw strings & digit separators accepted for all C-likes
     punct = PUNCT_JAVA if java else PUNCT_C
     toks = []
@@ -45,7 +49,9 @@ def lex(text, lang='C'):
         # returns length of a backslash-newline at j (allowing trailing blanks as gcc does), else 0
         if j < n and text[j] == '\\':
             k = j + 1
-            while k < n and text[k] in ' \t':
+            # ISO C/C++: the backslash must be immediately followed by the newline.  (gcc and clang also accept blanks in between,
+            # with a warning; uncrustify follows the standard, and so does this lexer - GCC_SPLICE switches the extension on)
+            while gcc and k < n and text[k] in ' \t':
                 k += 1
             if k < n and text[k] == '\r':
                 k += 1
@@ -131,7 +137,7 @@ def lex(text, lang='C'):
                 if text[j] == '/' and j + 1 < n and text[j + 1] in '/*':
                     break
                 j += 1
-            raw = ' '.join(text[i:j].split())
+            raw = ''.join(text[i:j].split())
             if raw:
                 toks.append(('other', raw, line, i))
             if j == i:
@@ -312,12 +318,20 @@ def norm_comment(t):
 
 
 def code_stream(toks):
+    """tokens without comments.  Lexical equivalences normalised: '>>'/'>>>' -> '>' pieces (the hook view B decides where a
+    split is legitimate); adjacent 'other' (free-text directive) pieces are joined; `operator ""_x` == `operator "" _x`
+    ([over.literal] allows both spellings of a literal-operator-id)."""
     out = []
     for (k, s, l, _o) in toks:
         if k.startswith('cmt'):
             continue
         if k == 'punct' and s in ('>>', '>>>'):
             out.extend([('punct', '>')] * len(s))
+        elif k == 'other' and out and out[-1][0] == 'other':
+            out[-1] = ('other', out[-1][1] + s)
+        elif k == 'str' and s.startswith('""_') and out and out[-1] == ('id', 'operator'):
+            out.append(('str', '""'))
+            out.append(('id', s[2:]))
         else:
             out.append((k, s))
     return out
